@@ -597,6 +597,11 @@ func (e *emitter) altFor(cond ast.Expr, th, el []emNode) []emNode {
 			return e.chain(ops, x.Op, th, el)
 		case token.NEQ:
 			return e.altFor(&ast.BinaryExpr{X: x.X, Op: token.EQL, Y: x.Y}, el, th)
+		case token.GEQ:
+			// one orientation for order comparisons: a >= b is the other arm of a < b
+			return e.altFor(&ast.BinaryExpr{X: x.X, Op: token.LSS, Y: x.Y}, el, th)
+		case token.LEQ:
+			return e.altFor(&ast.BinaryExpr{X: x.X, Op: token.GTR, Y: x.Y}, el, th)
 		case token.EQL:
 			// orient: constant / nil on the right
 			if e.isConstLike(x.X) && !e.isConstLike(x.Y) {
